@@ -446,6 +446,10 @@ def gen_infeasible(rng) -> dict:
         t = f'task a "A" {{ effort 4h allocate r0 start {far} }}\ntask b "B" {{ effort 2h allocate r0 depends a }}\n'
     elif kind == 3:  # pinned start before project start
         t = f'task a "A" {{ effort 4h allocate r0 start {before} }}\n'
+        if rng.random() < 0.6:
+            # ... or centuries before it (a mistyped year), with successors that count working time from there
+            long_ago = start.replace(year=rng.choice([1025, 1625, 1925, 1990])).isoformat() if not (start.month == 2 and start.day == 29) else before
+            t = f'task a "A" {{ start {long_ago} milestone }}\ntask b "B" {{ milestone depends a {{ {_pick(rng, ["gaplength", "gapduration"])} {rng.randrange(1, 60)}d }} }}\ntask c "C" {{ effort 3h allocate r0 depends a {{ gaplength {rng.randrange(1, 30)}h }} }}\n'
     elif kind == 4:  # gap past the end
         t = f'task a "A" {{ effort 4h allocate r0 }}\ntask b "B" {{ effort 2h allocate r0 depends a {{ gapduration {rng.randrange(200, 3000)}h }} }}\n'
     elif kind == 5:  # gaplength past end
